@@ -342,3 +342,95 @@ def C02_cast_family():
 
 
 ALL["C02_cast_family"] = C02_cast_family
+
+
+# --------------------------------------------------------------------------- T5..T9 transpose pairs
+def _chain_op(helper, numpy_helper, op, src, dst, idx, side, shape_t, inits, extra_inputs, rng):
+    """one elementwise node reading `src` (layout of shape_t); returns node"""
+    from onnx import TensorProto
+    binary = op in ("Add", "Mul", "Sub", "Div", "Max", "Min")
+    attrs = {}
+    ins = [src]
+    if op == "Cast":
+        attrs["to"] = TensorProto.FLOAT
+    if op == "LeakyRelu":
+        attrs["alpha"] = 0.1
+    if op == "Clip":
+        inits.append(numpy_helper.from_array(np.asarray(-0.5, np.float32), f"lo{idx}"))
+        inits.append(numpy_helper.from_array(np.asarray(0.5, np.float32), f"hi{idx}"))
+        ins += [f"lo{idx}", f"hi{idx}"]
+    if op == "CastLike" or binary:
+        nm = f"side{idx}"
+        if side == "scalar":
+            inits.append(numpy_helper.from_array(np.asarray(1.5, np.float32), nm))
+        elif side == "const_full":
+            inits.append(numpy_helper.from_array(rng.standard_normal(shape_t).astype(np.float32), nm))
+        elif side == "const_lastdim":
+            inits.append(numpy_helper.from_array(rng.standard_normal(shape_t[-1:]).astype(np.float32), nm))
+        elif side == "input_full":
+            extra_inputs.append((nm, list(shape_t)))
+        ins.append(nm)
+    return helper.make_node(op, ins, [dst], name=f"op{idx}", **attrs)
+
+
+def C02_transpose_pair_family():
+    """T1(p1) -> k elementwise ops (k = 0, 1, 2; unary and binary with scalar / full / last-dim constant or graph-input
+    side operands; CastLike with a tensor `like`) -> T2(p2), p2 the inverse of p1 or not, on x[2,3,4] and x[2,3,4,5];
+    intermediate values optionally graph outputs or read by a second consumer; T1 optionally feeding a second inverse
+    transpose.  remove_redundant_transpose_pairs_ir must change no output and leave no false declaration."""
+    from onnx import helper, TensorProto, numpy_helper
+    rng = np.random.default_rng(3)
+    unary = ["Relu", "Tanh", "Sigmoid", "Elu", "LeakyRelu", "Identity", "Cast", "Abs", "Neg", "Exp", "Clip"]
+    binary = ["Add", "Mul", "Max", "Min", "Sub"]
+    n = 0
+    for shape, p1, p2 in (((2, 3, 4), (0, 2, 1), (0, 2, 1)), ((2, 3, 4), (1, 2, 0), (2, 0, 1)), ((2, 3, 4), (1, 2, 0), (1, 2, 0)), ((2, 3, 4, 5), (0, 2, 3, 1), (0, 3, 1, 2)), ((2, 3, 4, 5), (0, 2, 3, 1), (0, 2, 3, 1))):
+        shape_t = tuple(shape[i] for i in p1)
+        chains = [[]] + [[(op, "scalar")] for op in unary] + [[(op, side)] for op in binary + ["CastLike"] for side in ("scalar", "const_full", "const_lastdim", "input_full")]
+        chains += [[("Relu", "scalar"), (op, side)] for op in ("Add", "Max", "CastLike") for side in ("scalar", "input_full")] + [[("Elu", "scalar"), ("Tanh", "scalar")], [("Add", "scalar"), ("Relu", "scalar")]]
+        if len(shape) == 4:
+            chains = chains[::3]
+        for chain in chains:
+            for variant in ("plain", "mid_is_output", "mid_second_consumer", "t1_second_inverse", "t1_out_is_output"):
+                if variant.startswith("mid") and not chain:
+                    continue
+                inits, extra_inputs, nodes = [], [], []
+                nodes.append(helper.make_node("Transpose", ["x"], ["t1o"], perm=list(p1), name="t1"))
+                cur, vis = "t1o", [helper.make_tensor_value_info("t1o", TensorProto.FLOAT, list(shape_t))]
+                for k, (op, side) in enumerate(chain):
+                    dst = f"c{k}"
+                    nodes.append(_chain_op(helper, numpy_helper, op, cur, dst, k, side, shape_t, inits, extra_inputs, rng))
+                    vis.append(helper.make_tensor_value_info(dst, TensorProto.FLOAT, list(shape_t)))
+                    cur = dst
+                out_shape = [shape_t[i] for i in p2]
+                nodes.append(helper.make_node("Transpose", [cur], ["t2o"], perm=list(p2), name="t2"))
+                nodes.append(helper.make_node("Neg", ["t2o"], ["y"], name="tail"))
+                vis.append(helper.make_tensor_value_info("t2o", TensorProto.FLOAT, out_shape))
+                outs = [helper.make_tensor_value_info("y", TensorProto.FLOAT, out_shape)]
+                if variant == "mid_is_output":
+                    outs.append(helper.make_tensor_value_info("c0", TensorProto.FLOAT, list(shape_t)))
+                elif variant == "mid_second_consumer":
+                    nodes.append(helper.make_node("Abs", ["c0"], ["z"], name="abs2"))
+                    outs.append(helper.make_tensor_value_info("z", TensorProto.FLOAT, list(shape_t)))
+                elif variant == "t1_second_inverse":
+                    inv = [list(p1).index(i) for i in range(len(p1))]
+                    nodes.append(helper.make_node("Transpose", ["t1o"], ["u"], perm=inv, name="t3"))
+                    nodes.append(helper.make_node("Abs", ["u"], ["z"], name="abs3"))
+                    outs.append(helper.make_tensor_value_info("z", TensorProto.FLOAT, list(shape)))
+                elif variant == "t1_out_is_output":
+                    outs.append(helper.make_tensor_value_info("t1o", TensorProto.FLOAT, list(shape_t)))
+                g_in = [helper.make_tensor_value_info("x", TensorProto.FLOAT, list(shape))] + [helper.make_tensor_value_info(nm, TensorProto.FLOAT, shp) for nm, shp in extra_inputs]
+                g = helper.make_graph(nodes, "g", g_in, outs, initializer=inits, value_info=vis)
+                m = helper.make_model(g, opset_imports=[helper.make_opsetid("", 21)])
+                m.ir_version = 10
+                feeds = {"x": rng.standard_normal(shape).astype(np.float32)}
+                for nm, shp in extra_inputs:
+                    feeds[nm] = rng.standard_normal(shp).astype(np.float32)
+                what = f"T1(perm={list(p1)}) -> {[f'{op}({side})' for op, side in chain]} -> T2(perm={list(p2)}) [{variant}] on x{list(shape)}"
+                ok, detail = check_pass(m, _single("remove_redundant_transpose_pairs_ir"), feeds, what)
+                if ok is False:
+                    return False, detail
+                n += 1 if ok else 0
+    return True, f"{n} transpose-pair graphs unchanged and truthfully annotated"
+
+
+ALL["C02_transpose_pair_family"] = C02_transpose_pair_family
